@@ -6,6 +6,7 @@ import (
 	"fmt"
 	"io"
 	"net/http"
+	"strconv"
 	"strings"
 	"time"
 
@@ -123,6 +124,8 @@ type scriptedRT struct {
 	bodies   func(attempt int, req *http.Request) (io.Reader, error)
 	attempts int
 	header   http.Header
+	// contentLength is announced in the response when >= 0 is wanted (0 means "unknown", as -1)
+	contentLength int64
 }
 
 func (s *scriptedRT) RoundTrip(req *http.Request) (*http.Response, error) {
@@ -133,14 +136,21 @@ func (s *scriptedRT) RoundTrip(req *http.Request) (*http.Response, error) {
 		return nil, err
 	}
 	h := http.Header{"Content-Type": []string{"text/event-stream"}}
+	cl := int64(-1)
+	if s.contentLength > 0 {
+		cl = s.contentLength
+		h.Set("Content-Length", strconv.FormatInt(cl, 10))
+	}
 	for k, v := range s.header {
 		h[k] = v
 	}
 	return &http.Response{
 		Status: "200 OK", StatusCode: 200, Proto: "HTTP/1.1", ProtoMajor: 1, ProtoMinor: 1,
-		Header: h, Body: io.NopCloser(body), Request: req, ContentLength: -1,
+		Header: h, Body: io.NopCloser(body), Request: req, ContentLength: cl,
 	}, nil
 }
+
+var runConnCalls int
 
 // runConn drives a Connection (single attempt, no retries) over the reader.
 func runConn(rd io.Reader, buf []byte, maxSize int) (obs readObs) {
@@ -151,6 +161,11 @@ func runConn(rd io.Reader, buf []byte, maxSize int) (obs readObs) {
 		}
 	}()
 	rt := &scriptedRT{bodies: func(int, *http.Request) (io.Reader, error) { return rd, nil }}
+	// every other finite body is announced with its exact Content-Length (a buffered or cached response)
+	runConnCalls++
+	if cr, ok := rd.(*mon.ChunkReader); ok && !cr.Endless && runConnCalls%2 == 1 {
+		rt.contentLength = int64(len(cr.Data))
+	}
 	cl := &sse.Client{
 		HTTPClient: &http.Client{Transport: rt},
 		Backoff:    sse.Backoff{MaxRetries: -1},
